@@ -842,8 +842,120 @@ def plans(quick):
             "T": [(1, 2), (2, 4), (3, 4), (4, 2)], "M": [(1, 2), (2, 4), (3, 4), (4, 2)]}
 
 
+class Sink:
+    """Stand-in for ctx inside a worker process; merged into the real ctx by the parent in task order."""
+
+    def __init__(self):
+        self.cases, self.clauses, self.counts, self.fails, self._seen = [], {}, {}, [], set()
+
+    def case(self, desc, nontrivial=True):
+        self.cases.append((desc, nontrivial))
+
+    def count(self, name, n=1):
+        self.counts[name] = self.counts.get(name, 0) + n
+
+    def clause(self, name):
+        self.clauses[name] = self.clauses.get(name, 0) + 1
+
+    def fail(self, function, clause, input, expected=None, observed=None, key=None, replay=None):
+        from hv.common import jsonable
+        key = key or f"{function}:{clause}"
+        if key not in self._seen:
+            self._seen.add(key)
+            self.fails.append((function, clause, jsonable(input), jsonable(expected), jsonable(observed), key, jsonable(replay)))
+
+    def check(self, cond, function, clause, input, expected=None, observed=None, key=None, replay=None):
+        self.clause(f"{function}:{clause}")
+        if not cond:
+            self.fail(function, clause, input, expected, observed, key, replay)
+        return cond
+
+    def merge_into(self, ctx, seen):
+        for desc, nontrivial in self.cases:
+            ctx.case(desc, nontrivial)
+        for name, n in self.clauses.items():
+            ctx.contract_evals[name] = ctx.contract_evals.get(name, 0) + n
+        for name, n in self.counts.items():
+            ctx.count(name, n)
+        for function, clause, input, expected, observed, key, replay in self.fails:
+            if key not in seen:  # ctx keeps at most 50 violations: one witness per kind of failure
+                seen.add(key)
+                ctx.fail(function, clause, input, expected, observed, key, replay)
+
+
+def run_tasks(ctx, worker, tasks):
+    """Runs worker(task) -> Sink for every task in forked processes; merges in task order (deterministic)."""
+    import multiprocessing
+    import hypergraphx  # noqa: F401  (imported before forking so that the workers share it)
+    nproc = max(1, min(16, multiprocessing.cpu_count(), len(tasks)))
+    seen = set()
+    if nproc == 1 or os.environ.get("VERIF_SERIAL"):
+        for t in tasks:
+            worker(t).merge_into(ctx, seen)
+        return
+    with multiprocessing.get_context("fork").Pool(nproc) as pool:
+        for sink in pool.imap(worker, tasks, chunksize=1):
+            sink.merge_into(ctx, seen)
+
+
+def _task_rng(seed, task):
+    return random.Random("C06/%d/%r" % (seed, task))
+
+
+N_PARTS = 2
+
+
+def _worker(args):
+    seed, quick, task = args
+    sink = Sink()
+    rep = Rep(sink)
+    rng = _task_rng(seed, task)
+    with tempfile.TemporaryDirectory(prefix="hv-c06-") as tmp:
+        what = task[0]
+        if what == "small":
+            _, kind, weighted, labelkind, part = task
+            for i, spec in enumerate(small_specs(kind, weighted, labelkind, plans(quick)[kind])):
+                if i % N_PARTS == part:
+                    _rt(sink, rep, spec, tmp)
+        elif what == "random":
+            _, kind, weighted, labelkind = task
+            for j in range(200 if quick else 3000):
+                spec = random_spec(rng, kind, weighted, labelkind)
+                if j % 10 == 9:
+                    spec["hmeta_replaced"] = True
+                if j % 4 == 1:
+                    spec["detour"] = True
+                _rt(sink, rep, spec, tmp)
+        elif what == "hgr":
+            gen = hgr_files_exhaustive(4, lambda v: 3) if quick else hgr_files_exhaustive(5, lambda v: 4 if v <= 4 else 3)
+            for i, (text, style, k) in enumerate(gen):
+                if i % 4 == task[1]:
+                    sink.case({"hgr": text}, nontrivial=k > 0)
+                    hgr_case(rep, text, tmp, style)
+        elif what == "hgr-random":
+            for j in range(300 if quick else 4000):
+                st = None if j % 25 else (STYLE_HEADER_BLANKS if j % 50 else STYLE_TABS)
+                text, style, k = hgr_file_random(rng, st)
+                sink.case({"hgr": text}, nontrivial=k > 0)
+                hgr_case(rep, text, tmp, style)
+        elif what == "hif":
+            for i, doc in enumerate(hif_docs_exhaustive(4, 3)):
+                if i % 2 == task[1]:
+                    sink.case({"hif": doc}, nontrivial=bool(doc["incidences"]))
+                    hif_case(rep, doc, tmp)
+        elif what == "hif-random":
+            for j in range(400 if quick else 4000):
+                doc = hif_doc_random(rng, j)
+                sink.case({"hif": doc}, nontrivial=bool(doc["incidences"]))
+                hif_case(rep, doc, tmp)
+            for j in range(6 if quick else 12):
+                doc = directed_hif_doc(j)
+                sink.case({"hif": doc})
+                hif_case(rep, doc, tmp)
+    return sink
+
+
 def run(ctx):
-    rep = Rep(ctx)
     quick = ctx.quick
     ctx.rule("round trip: one case = (object description, file format); objects enumerated over small universes with "
              "all record sets up to the stated size, then seeded random larger ones; non-trivial = the object has at "
@@ -854,56 +966,18 @@ def run(ctx):
     ctx.assume("the public getters (get_nodes, get_edges, get_weight, get_edge_metadata, get_hypergraph_metadata, "
                "is_weighted) report the content of a container faithfully (C01-C04)")
     ctx.assume("weights are compared numerically (2 == 2.0), metadata with Python ==")
-    with tempfile.TemporaryDirectory(prefix="hv-c06-") as tmp:
-        # ---- round trips, systematic
-        pl = plans(quick)
-        for kind in "HDTM":
-            for weighted in (False, True):
-                for labelkind in ("int", "str"):
-                    for spec in small_specs(kind, weighted, labelkind, pl[kind]):
-                        _rt(ctx, rep, spec, tmp)
-        ctx.exhaustive_parts.append(
-            "all containers of each of the 4 types x {weighted, unweighted} x {int, str labels} over the universes / "
-            "record counts %r (n, k) x {.json, .hgx}" % (pl,))
-        # ---- round trips, random
-        rng = random.Random(ctx.seed * 7919 + 6)
-        n_rand = 200 if quick else 3000
-        for kind in "HDTM":
-            for weighted in (False, True):
-                for labelkind in ("int", "str"):
-                    for j in range(n_rand):
-                        spec = random_spec(rng, kind, weighted, labelkind)
-                        if j % 10 == 9:
-                            spec["hmeta_replaced"] = True
-                        if j % 4 == 1:
-                            spec["detour"] = True
-                        _rt(ctx, rep, spec, tmp)
-        # ---- hMETIS
-        gen = hgr_files_exhaustive(4, lambda v: 3) if quick else hgr_files_exhaustive(5, lambda v: 4 if v <= 4 else 3)
-        for text, style, k in gen:
-            ctx.case({"hgr": text}, nontrivial=k > 0)
-            hgr_case(rep, text, tmp, style)
-        ctx.exhaustive_parts.append("all .hgr files with <= %s distinct hyperedges over <= %d vertices x 4 header formats "
-                                    "(layout style rotating)" % (("3", 4) if quick else ("4 (3 for 5 vertices)", 5)))
-        for j in range(300 if quick else 4000):
-            st = None if j % 25 else (STYLE_HEADER_BLANKS if j % 50 else STYLE_TABS)
-            text, style, k = hgr_file_random(rng, st)
-            ctx.case({"hgr": text}, nontrivial=k > 0)
-            hgr_case(rep, text, tmp, style)
-        # ---- HIF
-        for doc in hif_docs_exhaustive(4, 3):
-            ctx.case({"hif": doc}, nontrivial=bool(doc["incidences"]))
-            hif_case(rep, doc, tmp)
-        ctx.exhaustive_parts.append("all undirected HIF incidence structures with <= 3 edges of distinct non-empty "
-                                    "incidence sets over <= 4 nodes (record presence rotating)")
-        for j in range(400 if quick else 4000):
-            doc = hif_doc_random(rng, j)
-            ctx.case({"hif": doc}, nontrivial=bool(doc["incidences"]))
-            hif_case(rep, doc, tmp)
-        for j in range(6 if quick else 12):
-            doc = directed_hif_doc(j)
-            ctx.case({"hif": doc})
-            hif_case(rep, doc, tmp)
+    configs = [(k, w, l) for k in "HDTM" for w in (False, True) for l in ("int", "str")]
+    tasks = [("small",) + c + (p,) for c in configs for p in range(N_PARTS)]
+    tasks += [("random",) + c for c in configs]
+    tasks += [("hgr", p) for p in range(4)] + [("hgr-random",), ("hif", 0), ("hif", 1), ("hif-random",)]
+    run_tasks(ctx, _worker, [(ctx.seed, quick, t) for t in tasks])
+    ctx.exhaustive_parts.append(
+        "all containers of each of the 4 types x {weighted, unweighted} x {int, str labels} over the universes / "
+        "record counts %r (n, k) x {.json, .hgx}" % (plans(quick),))
+    ctx.exhaustive_parts.append("all .hgr files with <= %s distinct hyperedges over <= %d vertices x 4 header formats "
+                                "(layout style rotating)" % (("3", 4) if quick else ("4 (3 for 5 vertices)", 5)))
+    ctx.exhaustive_parts.append("all undirected HIF incidence structures with <= 3 edges of distinct non-empty "
+                                "incidence sets over <= 4 nodes (record presence rotating)")
 
 
 def _rt(ctx, rep, spec, tmp):
